@@ -176,6 +176,16 @@ impl Oracle {
                     if b.is_empty() && n > 0 && !(complete && valid && delivered.len() == exp.len()) { return "FAIL read reported the end before the end of a complete valid NAL".into(); }
                     delivered.extend_from_slice(&b); let k = b.len().min(last_fill.len()); last_fill.drain(..k);
                 }
+            } else if let Some(rest) = o.strip_prefix("D:") {
+                let mut it = rest.splitn(2, ':'); let got = unhex(it.next().unwrap()); let status = it.next().unwrap_or("");
+                delivered.extend_from_slice(&got); last_fill.clear();
+                if !exp.starts_with(&delivered) { return format!("FAIL drain delivered {} which is not what follows", hex(&got)); }
+                match status {
+                    "end" => if !(complete && valid && delivered.len() == exp.len()) { return format!("FAIL the end was reported after {} of {} bytes (complete={}, valid={})", delivered.len(), exp.len(), complete, valid); },
+                    "WouldBlock" => if complete || !valid || delivered.len() != exp.len() { return format!("FAIL WouldBlock after {} of {} bytes (complete={}, valid={})", delivered.len(), exp.len(), complete, valid); },
+                    "InvalidData" => if valid { return "FAIL InvalidData reported for a payload without forbidden sequences".into(); },
+                    other => return format!("FAIL drain ended with {}", other),
+                }
             } else if let Some(k) = o.strip_prefix('c') { let k: usize = k.parse().unwrap(); let k = k.min(last_fill.len()); delivered.extend(last_fill.drain(..k)); }
             else if o == "err:InvalidData" { saw_invalid = true; if valid { return "FAIL InvalidData reported for a payload without forbidden sequences".into(); } }
             else if o == "err:WouldBlock" { if complete { return "FAIL WouldBlock on a complete NAL".into(); } if !valid || delivered.len() + last_fill.len() < exp.len() { if valid { return "FAIL WouldBlock before the buffered data was exhausted".into(); } } }
